@@ -41,13 +41,7 @@ def compile_flags(scratch):
         return _compdb_cache
     res = {}
     note = 'default flags (no compilation database could be generated)'
-    try:
-        bdir = os.path.join(scratch, 'cmk')
-        subprocess.run(['cmake', '-S', REPO, '-B', bdir, '-G', 'Ninja'], stdout=subprocess.DEVNULL,
-                       stderr=subprocess.DEVNULL, timeout=120, check=True)
-        out = subprocess.check_output(['ninja', '-C', bdir, '-t', 'compdb'], text=True, timeout=60,
-                                      stderr=subprocess.DEVNULL)
-        db = json.loads(out)
+    def harvest(db):
         for e in db:
             f = e.get('file', '')
             for u, rel in UNITS.items():
@@ -58,8 +52,24 @@ def compile_flags(scratch):
                         if t.startswith(('-D', '-U', '-I', '-std=', '-fsigned-char', '-funsigned-char')):
                             keep.append(t)
                     res[u] = keep
-        shutil.rmtree(bdir, ignore_errors=True)
-        note = 'flags from a freshly generated cmake/ninja compilation database'
+    try:
+        # 1. the repository's own build directory, when present (the real configuration)
+        bn = os.path.join(REPO, '_build', 'build.ninja')
+        if os.path.exists(bn):
+            out = subprocess.check_output(['ninja', '-C', os.path.join(REPO, '_build'), '-t', 'compdb'], text=True,
+                                          timeout=60, stderr=subprocess.DEVNULL)
+            harvest(json.loads(out))
+            note = 'flags from ninja -t compdb on /repo/_build'
+        if len(res) < len(UNITS):
+            # 2. a fresh configuration of the current CMakeLists.txt with the baseline's build type
+            bdir = os.path.join(scratch, 'cmk')
+            subprocess.run(['cmake', '-S', REPO, '-B', bdir, '-G', 'Ninja', '-DCMAKE_BUILD_TYPE=RelWithDebInfo'],
+                           stdout=subprocess.DEVNULL, stderr=subprocess.DEVNULL, timeout=120, check=True)
+            out = subprocess.check_output(['ninja', '-C', bdir, '-t', 'compdb'], text=True, timeout=60,
+                                          stderr=subprocess.DEVNULL)
+            harvest(json.loads(out))
+            shutil.rmtree(bdir, ignore_errors=True)
+            note = 'flags from a freshly generated cmake/ninja compilation database (RelWithDebInfo)'
     except Exception as ex:  # pragma: no cover
         note = 'default flags (cmake/ninja failed: %s)' % type(ex).__name__
     for u in UNITS:
